@@ -139,6 +139,9 @@ def run(tier, seed):
         out.append(p)
     cases = kernel_cases(g.rng, 100 if tier == "quick" else 2000)
     out.append(carrier([{"obs": "kernels", "cases": cases}]))
+    # the library's own time functions (windowed / piecewise / interpolated, over time and over state, with parameterised
+    # points and values) and series helpers (rolling difference / reduction) inside jit=True runners
+    out.append(carrier([{"obs": "traced_library", "solvers": ["euler", "rk4", "solve_ivp"]}]))
     ex = checklib.explore(out, keys=KEYS, per_prog_timeout=120.0)
     # the same programs with the value-tainting array stand-in
     tainted = R.run_impl(out, extra_env={"SUMMER2_VERIF_TAINT": "1"}, per_prog_timeout=240.0)
@@ -181,10 +184,10 @@ def run(tier, seed):
     exe = os.path.join(checklib.BUILD, "summer_model")
     pr = subprocess.run([exe], input="\n".join(kernel_lines(cases)) + "\n", capture_output=True, text=True, timeout=300)
     mk = [json.loads(l) for l in pr.stdout.split("\n") if l.strip()]
-    ik = ex["ires"][-1]["obs"][0].get("kernels") if ex["ires"][-1].get("obs") else None
+    ik = ex["ires"][-2]["obs"][0].get("kernels") if ex["ires"][-2].get("obs") else None
     kernel_checks = 0
     if ik is None or len(mk) != len(cases):
-        extra.append(("kernel correspondence could not be evaluated: %s" % (json.dumps(ex["ires"][-1])[:200] + pr.stderr[-200:]),
+        extra.append(("kernel correspondence could not be evaluated: %s" % (json.dumps(ex["ires"][-2])[:200] + pr.stderr[-200:]),
                       {"kind": "harness"}, False))
     else:
         for c, a, b in zip(cases, mk, ik):
@@ -208,6 +211,6 @@ def run(tier, seed):
                     "one_step at a traced time and state) is executed under the value-tainting jax stand-in - jit arguments, "
                     "loop carries and indices, cond / switch operands are tracers, bool() / int() / float() / index / boolean "
                     "mask / shape use / numpy-function use of a tracer raises, all branches of cond / switch are executed - and "
-                    "must finish with numbers bit-identical to the untraced execution; the kernels translated into the tracing "
+                    "must finish with numbers bit-identical to the untraced execution; the library's time functions and series helpers inside jit=True runners likewise; the kernels translated into the tracing "
                     "model's language are evaluated on concrete inputs and compared with the Python functions; non-trivial = builds",
             "dist": dist(out)}
